@@ -21,10 +21,11 @@ RULE = ('per data set (Q: all orderings of 4 of the 1-D lattice {0,1,2,4,7,11}, 
         'T: + 5-point 1-D sets, 3x3 grid n=4) x metric {euclidean, manhattan, chebyshev} x k in {2,3}: initial states = '
         'k-centers state + nearest-center state of every k-subset; BFS depth 2 (T: 3) applying every proposal list in '
         '{0..n-1}^k through the real sweep; state key = (medoids, labels, distances); non-trivial = transition that '
-        'accepted >=1 proposal; then kmedoids/hybrid for sweeps 0..3 x seeds {s,s+1,s+2}')
+        'accepted >=1 proposal; then kmedoids/hybrid for sweeps 0..3 x seeds {s,s+1,s+2}; warm starts: every k-subset x every split of the frames '
+        'into trajectories x 4 ways of supplying the state (flat ids, (traj,frame) pairs, labels+distances, all)')
 ASSUMPTIONS = ['cost comparison tolerance 1e-12 relative', 'small-scope: n<=5 frames, k<=3',
                'random proposals observed through a recording RandomState subclass (no source hook)']
-GUARDS = {'accepted': 500, 'rejected': 500, 'proposal_outside_cluster': 500, 'proposal_is_other_medoid': 100,
+GUARDS = {'warm_forms': 500, 'accepted': 500, 'rejected': 500, 'proposal_outside_cluster': 500, 'proposal_is_other_medoid': 100,
           'random_path_checked': 100, 'e2e_improved': 50}
 NSH = {'quick': 48, 'thorough': 256}
 METRICS = ('euclidean', 'manhattan', 'chebyshev')
@@ -253,6 +254,68 @@ def check_e2e(pts, metric, k, seed, ctx):
         ctx.violation('e2e:raises:%s' % type(e).__name__, case, 'raised %r on %r' % (e, case))
 
 
+def compositions(n):
+    for bits in itertools.product((0, 1), repeat=n - 1):
+        out, cur = [], 1
+        for b in bits:
+            if b:
+                out.append(cur)
+                cur = 1
+            else:
+                cur += 1
+        out.append(cur)
+        yield out
+
+
+def flat_to_pair(idx, lengths):
+    t = 0
+    for L in lengths:
+        if idx < L:
+            return (t, idx)
+        idx -= L
+        t += 1
+    raise IndexError
+
+
+def check_warm(case, ctx):
+    """starting from a supplied consistent state: every way of supplying it (flat indices, (traj, frame) pairs +
+    lengths, labels+distances, all three) must start the sweeps from THAT state: same outcome for the same seed,
+    cost never above the cost of the supplied centers."""
+    from enspara.cluster import kmedoids as km
+    pts = tuple(tuple(p) if isinstance(p, list) else p for p in case['pts'])
+    metric, sub, lengths, seed, iters = case['metric'], case['centers'], case['lengths'], case['seed'], case['iters']
+    X = cr.as_array(pts, 'float64')
+    D = cr.dist_matrix(X, metric)
+    m = cr.impl_metric(metric)
+    lab, dist = cr.nearest_state(D, sub)
+    c0 = cr.cost(dist)
+    forms = {
+        'flat': dict(cluster_center_inds=list(sub)),
+        'pairs': dict(cluster_center_inds=[flat_to_pair(i, lengths) for i in sub], X_lengths=list(lengths)),
+        'state': dict(assignments=lab.copy(), distances=dist.copy()),
+        'all': dict(assignments=lab.copy(), distances=dist.copy(), cluster_center_inds=list(sub)),
+    }
+    outs = {}
+    for name, kw in forms.items():
+        ctx.ev()
+        try:
+            r = km.kmedoids(X, m, n_iters=iters, random_state=seed, **kw)
+        except Exception as e:
+            ctx.violation('warm:%s:raises:%s' % (name, type(e).__name__), case, 'kmedoids warm start (%s) raised %r on %r' % (name, e, case))
+            continue
+        ctx.guard('warm_forms')
+        for clause, msg in cr.check_result(X, D, r, want_k=len(sub)):
+            ctx.violation('warm:%s:%s' % (name, clause), case, msg)
+        c = cr.cost(r.distances)
+        if c > c0 * (1 + 1e-12) + 1e-15:
+            ctx.violation('warm:%s:cost_above_supplied_state' % name, case,
+                          'supplied centers %r have cost %.12g, after %d sweep(s) the cost is %.12g (%r)' % (sub, c0, iters, c, case))
+        outs[name] = skey(([int(i) for i in r.center_indices], r.assignments.tolist(), r.distances.tolist()))
+    if len(set(outs.values())) > 1:
+        ctx.violation('warm:forms_disagree', case, 'same centers, same seed, different outcome depending on how the state was supplied: %r' % (
+            {k: v[0] for k, v in outs.items()},))
+
+
 def run_shard(sh, ctx):
     tier, i = sh
     ds = datasets(tier)
@@ -275,6 +338,16 @@ def run_shard(sh, ctx):
                     lab, dist = cr.nearest_state(D, sub)
                     for s in (ctx.seed, ctx.seed + 1, ctx.seed + 2):
                         check_random_path(pts, metric, (list(sub), lab.tolist(), dist.tolist()), s, ctx)
+        # warm starts in every supplied form, every split into trajectories
+        for metric in ('euclidean',):
+            for k in (2, 3):
+                if k >= n:
+                    continue
+                for sub in itertools.combinations(range(n), k):
+                    for lengths in compositions(n):
+                        ctx.state(('warm', pts, metric, sub, tuple(lengths)), nontrivial=len(set(lengths)) > 1)
+                        check_warm({'kind': 'warm', 'pts': pts, 'metric': metric, 'centers': list(sub), 'lengths': lengths,
+                                    'seed': ctx.seed + len(lengths), 'iters': 1 + (sum(sub) % 2)}, ctx)
         if j % 29 == 0:
             ctx.sample({'pts': pts, 'metrics': METRICS, 'k': [2, 3], 'bfs_depth': depth,
                         'proposal_lists_per_state': 'all of {0..n-1}^k'})
@@ -285,6 +358,9 @@ def replay(case, ctx):
     metric = case['metric']
     X = cr.as_array(pts, 'float64')
     D = cr.dist_matrix(X, metric)
+    if case['kind'] == 'warm':
+        check_warm(case, ctx)
+        return
     if case['kind'] == 'sweep':
         check_transition(X, D, metric, tuple(case['state']), case['proposals'], ctx, case)
     elif case['kind'] == 'random':
